@@ -118,6 +118,20 @@ func dropCycleKillScenario(c *sup.Ctx, r *rng.R) {
 	reportCrash(c, run, &o)
 }
 
+// lockedOpenScenario: between the writer's end and the real reopen, a process tries to open the bucket while its
+// database file is write-locked from outside for longer than rosmar's busy timeout (10 s). That open fails; the
+// bucket must be none the worse for it.
+func lockedOpenScenario(c *sup.Ctx, r *rng.R) {
+	run := &crash.Run{Tmp: c.Tmp, LockedOpen: true, Writer: crash.WriterArgs{Seed: c.Seed*1000 + uint64(c.Local), Ops: 10, Clean: c.Local%2 == 0},
+		Reader: crash.ReaderArgs{Mode: 2 - 2*((c.Local/2)%2), NewWrites: 1}}
+	o := run.Execute()
+	c.Count("opens_attempted_while_the_file_was_locked", 1)
+	if o.LockedOpenErr != "" {
+		c.Count("opens_refused_while_the_file_was_locked", 1)
+	}
+	reportCrash(c, run, &o)
+}
+
 func straceKillScenario(c *sup.Ctx, r *rng.R) {
 	hist := uint64(c.Local % 12)
 	// opening the bucket (schema, collections, design document) takes ~120 pwrite64 calls spread over several
@@ -221,6 +235,7 @@ func init() {
 			crashPart("pwrite-kills", 144, 6000, straceKillScenario),
 			crashPart("pwrite-kills-in-drop-cycles", 160, 1600, dropCycleKillScenario),
 			crashPart("controls", 45, 300, controlScenario),
+			crashPart("open-fails-while-locked", 6, 40, lockedOpenScenario),
 			crashPart("reopen-clock", 40, 1200, reopenClockScenario),
 			crashPart("pending-expiry", 30, 300, pendingExpiryScenario),
 		},
